@@ -206,8 +206,31 @@ def rewrite_debug_asserts(body, unit, log):
     return out
 
 
+def rewrite_msg_macros(body, unit, log):
+    """R16: `msg!(...)` (solana program log) has no effect on state or result: the statement is dropped.
+    Its arguments are plain reads in every use the extractor meets (format arguments)."""
+    pat = re.compile(r'\bmsg!\s*\(')
+    out, i, n = '', 0, 0
+    while True:
+        m = pat.search(body, i)
+        if not m:
+            out += body[i:]
+            break
+        out += body[i:m.start()]
+        close = extract.match_brace(body, m.end() - 1, '(', ')')
+        j = close + 1
+        if j < len(body) and body[j] == ';':
+            j += 1
+        i = j
+        n += 1
+    if n:
+        log.append(f'R16 x{n} in {unit["id"]} (msg! log statement dropped)')
+    return out
+
+
 def rewrite_body(body, unit, log):
     body = rewrite_require_macros(body, unit, log)
+    body = rewrite_msg_macros(body, unit, log)
     if not unit.get('keep_debug_asserts'):
         body = rewrite_debug_asserts(body, unit, log)
     for rid, pat, rep, why in GLOBAL_REWRITES:
